@@ -11,9 +11,9 @@ from harness.tr import mk_array
 EVIDENCE = {
     "functions": ["PolygonTensor.area/_normalized_projection", "Polygon.centroid", "Simplex.volume (determinant and Cayley-Menger branches)", "SegmentTensor.midpoint", "Triangle.circumcenter",
                   "RegularPolygon.__init__/center/radius/inradius", "PolytopeTensor.__eq__", "Cuboid.__init__", "Polyhedron.area/faces", "transformation.rotation/translation (exact trig values)"],
-    "bounds": "polygons with 3-5 free real vertices (2-D, weight 1; one case with free weights), triangle in 3-space (Cayley-Menger), tetrahedron, regular polygons with n in {3, 4, 6} "
+    "bounds": "polygons with 3-5 free real vertices (2-D, weight 1; one case with free weights), triangle in 3-space (Cayley-Menger), tetrahedron and planar triangle with free non-zero vertex weights, area of 3 lattice polygons in 4 planes of 3-space with a free real offset along the normal, regular polygons with n in {3, 4, 6} "
               "(pi symbolic, exact algebraic cos/sin), centre and radius free reals; cuboid with free origin and edge lengths along the axes; cyclic shifts / reversal of the vertex list",
-    "outside": "Cuboid/Polyhedron.area (sum of six radical face areas: attempted, tier 'attempt', undecided -> not claimed), regular polygons with n not in {3,4,6}, polygons embedded in general position in 3-space (QR stub + radicals: thorough/attempt), general parallelepipeds, rounding",
+    "outside": "polygons in a fully symbolic plane of 3-space, Cuboid/Polyhedron.area (sum of six radical face areas: attempted, tier 'attempt', undecided -> not claimed), regular polygons with n not in {3,4,6}, polygons embedded in general position in 3-space (QR stub + radicals: thorough/attempt), general parallelepipeds, rounding",
     "assumptions": ["np.cos/np.sin: exact values at multiples of pi/12 (stub)", "ProjectiveTensor.__eq__/is_multiple: lemma proved in C20"],
 }
 
@@ -278,6 +278,31 @@ def case_cuboid(ctx, with_area=False):
     ctx.require("cuboid:area", ctx.eq(A, 2 * (a * b + b * c + c * a)))
 
 
+def mk_cuboid_area_lattice(k):
+    """cuboid with lattice corner and two lattice edge lengths, third edge length a free positive real: surface area and face areas"""
+    CONF = [((0, 0, 0), (None, 2, 3)), ((1, -2, 3), (2, None, 1)), ((-1, 0, 2), (3, 1, None))]
+
+    def case(ctx):
+        from geometer import Cuboid, Point
+        o, ed = CONF[k]
+        a = ctx.real("a")
+        ctx.assume(ctx.lt(0, a))
+        ea, eb, ec = [a if x is None else x for x in ed]
+        cub = Cuboid(Point(ctx.const(list(o) + [1], float)), Point(mk_array(ctx, [o[0] + ea, o[1], o[2], 1])), Point(mk_array(ctx, [o[0], o[1] + eb, o[2], 1])),
+                     Point(mk_array(ctx, [o[0], o[1], o[2] + ec, 1])))
+        A = cub.area
+        ctx.require("cuboid:area", ctx.eq(A, 2 * (ea * eb + eb * ec + ec * ea)))
+        fa = cub.faces.area
+        ctx.require("cuboid:six-faces", len(fa) == 6)
+        tot = fa[0]
+        for i in range(1, 6):
+            tot = tot + fa[i]
+        ctx.require("cuboid:area-is-sum-of-face-areas", ctx.eq(A, tot))
+        for i in range(6):
+            ctx.require(f"cuboid:face[{i}]-area-nonnegative", ctx.le(0, fa[i]))
+    return case
+
+
 def cases(tier, seed):
     Q, T = ("quick", "thorough"), ("thorough",)
     cs = []
@@ -304,5 +329,7 @@ def cases(tier, seed):
         add(f"regular_polygon_{n}", mk_regular(n), tiers=Q, max_paths=3000)
     add("equality", case_equality, tiers=Q, max_paths=4000)
     add("cuboid_structure", case_cuboid, tiers=Q, max_paths=3000)
+    for k in range(3):
+        add(f"cuboid_area_lattice{k}_free_edge", mk_cuboid_area_lattice(k), tiers=("attempt",), max_paths=3000)
     add("cuboid_area", (lambda ctx: case_cuboid(ctx, True)), tiers=("attempt",), max_paths=3000)
     return cs
